@@ -534,6 +534,8 @@ func (in *instr) file(f *ast.File) {
 	if in.used {
 		astutil.AddNamedImport(in.fset, f, "simrt", simrtPath)
 	}
+	type unusedImport struct{ name, path string }
+	var unused []unusedImport
 	for _, imp := range f.Imports {
 		path, _ := strconv.Unquote(imp.Path.Value)
 		if path == simrtPath {
@@ -547,10 +549,23 @@ func (in *instr) file(f *ast.File) {
 			if imp.Name != nil {
 				name = imp.Name.Name
 			}
-			astutil.DeleteNamedImport(in.fset, f, name, path)
+			unused = append(unused, unusedImport{name, path})
 		}
 	}
+	for _, u := range unused {
+		astutil.DeleteNamedImport(in.fset, f, u.name, u.path)
+	}
 }
+
+var atomicFuncs = func() map[string]bool {
+	m := map[string]bool{}
+	for _, op := range []string{"Add", "Load", "Store", "Swap", "CompareAndSwap"} {
+		for _, ty := range []string{"Int32", "Int64", "Uint32", "Uint64"} {
+			m[op+ty] = true
+		}
+	}
+	return m
+}()
 
 var assignOps = map[token.Token]token.Token{
 	token.ADD_ASSIGN: token.ADD, token.SUB_ASSIGN: token.SUB, token.MUL_ASSIGN: token.MUL,
@@ -661,7 +676,7 @@ func (in *instr) selector(c *astutil.Cursor, n *ast.SelectorExpr) {
 			case "sync":
 				if _, ok := obj.(*types.TypeName); ok {
 					switch obj.Name() {
-					case "Mutex", "RWMutex", "WaitGroup", "Once":
+					case "Mutex", "RWMutex", "WaitGroup", "Once", "Cond", "Locker":
 						st.Rewrites["sync_type"]++
 						in.used = true
 						c.Replace(sel(obj.Name()))
@@ -670,9 +685,32 @@ func (in *instr) selector(c *astutil.Cursor, n *ast.SelectorExpr) {
 					}
 					return
 				}
+				if _, ok := obj.(*types.Func); ok && obj.Name() == "NewCond" {
+					st.Rewrites["sync_type"]++
+					in.used = true
+					c.Replace(sel("NewCond"))
+					return
+				}
 				unsupported(in.fset, n.Pos(), "sync."+obj.Name())
 				return
 			case "sync/atomic":
+				switch obj.(type) {
+				case *types.TypeName:
+					switch obj.Name() {
+					case "Int32", "Int64", "Uint32", "Uint64", "Bool", "Pointer", "Value":
+						st.Rewrites["atomic"]++
+						in.used = true
+						c.Replace(sel(obj.Name()))
+						return
+					}
+				case *types.Func:
+					if atomicFuncs[obj.Name()] {
+						st.Rewrites["atomic"]++
+						in.used = true
+						c.Replace(sel(obj.Name()))
+						return
+					}
+				}
 				unsupported(in.fset, n.Pos(), "sync/atomic."+obj.Name())
 				return
 			case "time":
